@@ -82,6 +82,10 @@ def check_case(case, ctx=None, workdir=None):
             pre = [{"spec": dict(spec, seed=spec["seed"] + 100), "cfg": cfg}] if cfg is case["cfgs"][-1] else None
             if pre: note("oracle.multiproc-after-earlier-run")
             out = X.run_subprocess(spec, cfg, workdir, side=side, pre=pre)
+            if out["status"] == "timeout":          # a watchdog firing decides nothing: one more attempt with a long deadline
+                note("multiproc-watchdog-retry")
+                if os.path.exists(side): os.remove(side)
+                out = X.run_subprocess(spec, cfg, workdir, side=side, pre=pre, timeout=900)
             if out["status"] != "ok":
                 if out["status"] == "raised":
                     viol.append((f"multiproc/raised/{feat}", f"cfg={cfg}: {out['error']}"))
